@@ -174,7 +174,8 @@ func eval(c Case, res *ev.Result, lc *local) {
 				pan = fmt.Sprint(rec)
 			}
 		}()
-		b := modbus.NewRequestBuilder("", 0).AddAll(fields)
+		// the builder's own default target differs from every field's: AddAll is documented not to apply it
+		b := modbus.NewRequestBuilder("dflt:9", 9).AddAll(fields)
 		switch {
 		case c.FC == 3 && !c.RTU:
 			reqs, err = b.ReadHoldingRegistersTCP()
@@ -437,6 +438,25 @@ func run(tier string, shard, nsh int, res *ev.Result) {
 				}
 			})
 		}
+		jobs = append(jobs, func(lc *local) { // same-address fields that are not neighbours in the list; an explicit unit id 0
+			types := []uint8{5, 9, 1, 13}
+			for _, t1 := range types {
+				for _, t2 := range types {
+					for _, a := range []uint16{10, 65530} {
+						x := F{Server: "A", Unit: 1, Addr: a, Type: t1, Bit: 9, Len: 3}
+						y := F{Server: "A", Unit: 1, Addr: a + 2, Type: 7, Len: 0}
+						z := F{Server: "A", Unit: 1, Addr: a, Type: t2, Bit: 2, Len: 4}
+						eval(Case{FC: cf.fc, RTU: cf.rtu, Lenient: cf.lenient, Image: 1, Truncate: -1, Fields: []F{x, y, z}}, res, lc)
+						y2 := y
+						y2.Server, y2.Addr = "B", a
+						eval(Case{FC: cf.fc, RTU: cf.rtu, Lenient: cf.lenient, Image: 1, Truncate: -1, Fields: []F{x, y2, z}}, res, lc)
+						x0 := x
+						x0.Unit = 0
+						eval(Case{FC: cf.fc, RTU: cf.rtu, Lenient: cf.lenient, Image: 1, Truncate: -1, Fields: []F{x0, z}}, res, lc)
+					}
+				}
+			}
+		})
 		jobs = append(jobs, func(lc *local) { // pairs of targets whose names / unit ids concatenate ambiguously
 			targets := collidingTargets()
 			fa := F{Addr: 10, Type: 5}
